@@ -1,6 +1,8 @@
 //! pvc-uint: checks C15, C20.  usage: pvc-uint <Cxx> --tier quick|thorough [--replay f] [--only family]
 
 pub mod c15;
+pub mod c15b;
+pub mod c15p;
 pub mod uctx;
 pub mod c20;
 
